@@ -88,9 +88,8 @@ func (impl Implementation) Dgels(trans blas.Transpose, m, n, nrhs int, a []float
 		}
 	}
 	wsize := max(1, mn+max(mn, nrhs)*nb)
-	work[0] = float64(wsize)
-
 	if lwork == -1 {
+		work[0] = float64(wsize)
 		return true
 	}
 
@@ -100,6 +99,7 @@ func (impl Implementation) Dgels(trans blas.Transpose, m, n, nrhs int, a []float
 	case len(b) < (max(m, n)-1)*ldb+nrhs:
 		panic(shortB)
 	}
+	work[0] = float64(wsize)
 
 	// Scale the input matrices if they contain extreme values.
 	smlnum := dlamchS / dlamchP
